@@ -1,2 +1,3 @@
 import Mistune.Util
 import Mistune.Unicode
+import Mistune.Toc
